@@ -93,4 +93,13 @@ def tracegen_jobs(tier):
             if not q:
                 J.bytes_job(cfg(P, mn, mx, muts=["memoindex", "offbyone"], rate=1.0), blen=60000)
                 J.seed_job(cfg(P, mn, mx))
+        # H histories: the recorded generation is the (warm+1)-th call on ONE generator; every per-pickle
+        # property must hold for it exactly as for the first (state left behind by earlier calls)
+        for warm in ((1, 2, 5) if q else (1, 2, 3, 5, 9)):
+            for _ in range(2 if q else 6):
+                J.seed_job(cfg(P), warm=warm)
+                J.seed_job(cfg(P, 10, 60, muts=["offbyone", "memoindex"], rate=1.0), warm=warm)
+            J.bytes_job(cfg(P), blen=3000, warm=warm)
+            J.seed_job(cfg(P, 20, 80, ext=True, buf=True), warm=warm)
+            J.seed_job(cfg(P, 10, 80, muts=MUTS, rate=0.5, unsafe=True), warm=warm)
     return J.jobs
